@@ -914,7 +914,7 @@ class Operations:
         oldnpts = knotvector.npts
         degree = knotvector.degree
         oldspan = knotvector.span(node)
-        oldmult = knotvector.mult(node)
+        oldmult = sum(knot == node for knot in knotvector)  # exact, as span is
         one = (knotvector[-1] - node) + (node - knotvector[0])
         one = one / one
         matrix = np.zeros((oldnpts + 1, oldnpts), dtype="object")
